@@ -22,7 +22,8 @@ import fastavro
 from harness.lib.coqio import to_coq
 
 INFLIGHT = "metadata/inflight"
-OPS = {"exists": "E", "open_file": "O", "read_file": "R", "list_files": "L", "get_modified_time": "S", "delete_file": "D"}
+OPS = {"exists": "E", "open_file": "O", "read_file": "R", "list_files": "L", "get_modified_time": "S", "delete_file": "D",
+       "read_json": "J"}        # J: only the metadata files are read this way (pointer plane, Model/GCPointer.v)
 FAULT_CODE = {"raise": 1, "missing": 1, "raisex": 2, "bad": 3}
 FAULT_CTOR = {"raise": "FRaise", "missing": "FRaise", "raisex": "FRaiseX", "bad": "FBad",
               "stream1": "FRaise", "stream2": "FRaiseX", "stream3": "FBad"}
@@ -355,7 +356,7 @@ class TracingStorage:
         if not callable(attr) or name.startswith("_"):
             return attr
         if name not in OPS:
-            if name in ("read_json", "write_file", "write_json", "read_file_with_etag", "write_file_cas", "get_size", "open_seekable", "makedirs", "create_lock"):
+            if name in ("write_file", "write_json", "read_file_with_etag", "write_file_cas", "get_size", "open_seekable", "makedirs", "create_lock"):
                 def other(*a: Any, **kw: Any) -> Any:
                     self.trace.append(("?" + name, str(a[0]) if a else "", 0))
                     return attr(*a, **kw)
@@ -396,6 +397,8 @@ class TracingStorage:
                     return b"\x00\x01 these bytes are neither Avro nor JSON \xff"
                 if code == "L":
                     return list(attr(path, *a, **kw)) + ["../x"]
+                if code == "J":
+                    json.loads("\x00 this is not JSON")      # what read_json makes of garbled bytes: json.JSONDecodeError
                 raise OSError(5, f"injected I/O error on {name}({path})")
             return attr(path, *a, **kw)
         return wrapped
@@ -473,7 +476,7 @@ def run_collect(table: Any, grace_ms: int, now_s: float, plan: Optional[List[Dic
     out["pre_trace"] = st.trace[a:b] + [c for c in rest if is_pointer_plane(c[1])]
     out["trace"] = [c for c in rest if not is_pointer_plane(c[1])]
     out["keep_sets"] = keep_sets
-    out["unknown"] = [t for t in st.trace if t[0].startswith("?") and t[0] != "?read_json" and not is_announcement_plane(t[1])]
+    out["unknown"] = [t for t in st.trace if t[0].startswith("?") and not is_announcement_plane(t[1])]
     return out
 
 
